@@ -143,9 +143,29 @@ func (s *monoSess) randomGeomOp() {
 	}
 }
 
+// shapes that cover the whole canvas (or more): what "clear the display" / "fill the tile" calls look like
+func (s *monoSess) coveringOp() {
+	r := s.r
+	c := r.Chance(60)
+	x, y := -r.Pick(0, 0, 0, 1, 5, 8), -r.Pick(0, 0, 0, 1, 5, 8)
+	w, h := s.w-x+r.Pick(0, 0, 0, 1, 100), s.h-y+r.Pick(0, 0, 0, 1, 100)
+	switch r.Intn(4) {
+	case 0, 1:
+		emit("mono.frect", x, y, w, h, c)
+	case 2:
+		emit("mono.frrect", x, y, w, h, r.Pick(0, 1, 3), c)
+	case 3:
+		emit("mono.rrect", x, y, w, h, r.Pick(0, 2), c)
+	}
+}
+
 func (s *monoSess) randomDrawOp(withText bool) {
 	r := s.r
 	c := r.Chance(75)
+	if r.Chance(7) {
+		s.coveringOp()
+		return
+	}
 	n := 10
 	if withText {
 		n = 13
